@@ -134,8 +134,74 @@ var byteRepl = []func(b byte) byte{
 	func(b byte) byte { return b ^ 0x80 },
 }
 
+var allBytes = func() []func(b byte) byte {
+	var fs []func(b byte) byte
+	for v := 0; v < 256; v++ {
+		v := byte(v)
+		fs = append(fs, func(byte) byte { return v })
+	}
+	return fs
+}()
+
+// headerWords: every word of a PLY header is replaced by each of these.
+var headerWords = []string{"ply", "format", "ascii", "binary_little_endian", "binary_big_endian", "1.0", "comment", "obj_info",
+	"element", "property", "list", "end_header", "vertex", "face", "vertex_index", "x", "red",
+	"char", "uchar", "short", "ushort", "int", "uint", "float", "double",
+	"int8", "uint8", "int16", "uint16", "int32", "uint32", "float32", "float64", "0", "-1", "4294967296", ""}
+
+// reduced replacement sets for pairs of fields
+var pairTokens = []string{"0", "-1", "4294967296"}
+
+func pairValues(f Field, orig []byte) [][]byte {
+	if f.Kind == "token" {
+		var out [][]byte
+		for _, t := range pairTokens {
+			out = append(out, []byte(t))
+		}
+		return out
+	}
+	vs := fieldValues(f, orig)
+	// 0, max, sign bit (fieldValues order: 0, 1, cur+1, cur-1, max, max-1, max>>1, (max>>1)+1, ...)
+	var out [][]byte
+	seen := map[string]bool{}
+	zero := make([]byte, f.Len)
+	ff := make([]byte, f.Len)
+	for i := range ff {
+		ff[i] = 0xff
+	}
+	for _, v := range vs {
+		k := string(v)
+		if (k == string(zero) || k == string(ff) || len(out) < 3 && v[0]&0x7f == 0 && (v[0] == 0x80 || v[len(v)-1] == 0x80)) && !seen[k] {
+			seen[k] = true
+			out = append(out, v)
+		}
+	}
+	return out
+}
+
+func wordFields(data []byte) []Field {
+	var fields []Field
+	i := 0
+	for i < len(data) {
+		for i < len(data) && (data[i] == ' ' || data[i] == '\n' || data[i] == '\t' || data[i] == '\r') {
+			i++
+		}
+		j := i
+		for j < len(data) && !(data[j] == ' ' || data[j] == '\n' || data[j] == '\t' || data[j] == '\r') {
+			j++
+		}
+		if j > i {
+			fields = append(fields, Field{Off: i, Len: j - i, Kind: "token", Role: "word"})
+		}
+		i = j
+	}
+	return fields
+}
+
 var tokenRepl = []string{"0", "1", "-1", "2", "255", "256", "65536", "2147483647", "2147483648", "4294967295",
-	"4294967296", "9223372036854775807", "-9223372036854775808", "1e9", "nan", "x", "1000000", "100000000", "-0", ""}
+	"4294967296", "9223372036854775807", "-9223372036854775808", "1e9", "nan", "x", "1000000", "100000000", "-0", "",
+	"+5", "0x10", "1.5", "1e400", "-1e400", "1e-400", "Inf", "-inf", "NaN", ".", "-", "1_000", "0000000000000000000000000000000000000003",
+	"99999999999999999999999999999999999999999999999999999999999999999999999999999999", "3\x00", "\xff\xfe"}
 
 func fieldValues(f Field, orig []byte) [][]byte {
 	var out [][]byte
@@ -265,9 +331,13 @@ func Enumerate(corpus []*CorpusFile, tier string, seed uint64, visit func(idx in
 						emit("TRUNC", func() *Case { return mkCase(dec, f, base[:k], []string{fmt.Sprintf("TRUNC@%d", k)}, d) })
 					}
 				}
-				// every single-byte replacement
+				// every single-byte replacement (thorough: by every one of the 256 values)
+				repls := byteRepl
+				if tier == "thorough" && len(base) <= 2048 {
+					repls = allBytes
+				}
 				for k := 0; k < len(base); k++ {
-					for ri, rf := range byteRepl {
+					for ri, rf := range repls {
 						k, ri := k, ri
 						nb := rf(base[k])
 						if nb == base[k] {
@@ -338,6 +408,77 @@ func Enumerate(corpus []*CorpusFile, tier string, seed uint64, visit func(idx in
 							data = append(data, base[fl.Off+fl.Len:]...)
 							return mkCase(dec, f, data, []string{fmt.Sprintf("FIELD@%d(%s,%s)=%q", fl.Off, fl.Kind, fl.Role, rv)}, d)
 						})
+					}
+				}
+				// every word of a PLY header replaced by every keyword / type name
+				if kind == "plyhdr" || kind == "plygen" || kind == "plymesh" {
+					for wi, fl := range wordFields(base[:asciiEnd(base)]) {
+						fl := fl
+						for ri, word := range headerWords {
+							word := word
+							if string(base[fl.Off:fl.Off+fl.Len]) == word {
+								continue
+							}
+							h := choice.Derive(hseed, fmt.Sprint("w", wi, ri))
+							modes := deliveryModes(len(base), h)
+							d := modes[0]
+							if h%4 == 0 {
+								d = modes[1+int((h>>8)%7)]
+							}
+							emit("WORD", func() *Case {
+								data := append([]byte(nil), base[:fl.Off]...)
+								data = append(data, word...)
+								data = append(data, base[fl.Off+fl.Len:]...)
+								return mkCase(dec, f, data, []string{fmt.Sprintf("WORD@%d=%q", fl.Off, word)}, d)
+							})
+						}
+					}
+				}
+				// pairs of fields: a structural one (among the first eight of the file,
+				// or a binary list length / count) together with any later or earlier
+				// one, each replaced by 0 / -1 or all-ones / just past the signed range.
+				// quick: the half of the pairs selected by a hash; thorough: all.
+				for fi, fa := range fields {
+					if !(fi < 8 || fa.Role == "listlen" || fa.Role == "count") || fa.Off+fa.Len > len(base) {
+						continue
+					}
+					fa := fa
+					va := pairValues(fa, base[fa.Off:fa.Off+fa.Len])
+					for fj, fb := range fields {
+						if fj == fi || fb.Off+fb.Len > len(base) || fb.Off < fa.Off+fa.Len && fa.Off < fb.Off+fb.Len {
+							continue
+						}
+						if (fj < 8 || fb.Role == "listlen" || fb.Role == "count") && fj < fi {
+							continue // unordered pair of two structural fields: once
+						}
+						fb := fb
+						vb := pairValues(fb, base[fb.Off:fb.Off+fb.Len])
+						for ai, ra := range va {
+							for bi, rb := range vb {
+								ra, rb := ra, rb
+								h := choice.Derive(hseed, fmt.Sprint("p", fi, fj, ai, bi))
+								if tier != "thorough" && h%2 != 0 {
+									continue
+								}
+								modes := deliveryModes(len(base), h)
+								d := modes[0]
+								if h%8 == 0 {
+									d = modes[1+int((h>>8)%7)]
+								}
+								emit("PAIR", func() *Case {
+									first, second, r1, r2 := fa, fb, ra, rb
+									if fb.Off < fa.Off {
+										first, second, r1, r2 = fb, fa, rb, ra
+									}
+									data := append([]byte(nil), base[:first.Off]...)
+									data = append(data, r1...)
+									data = append(data, base[first.Off+first.Len:second.Off]...)
+									data = append(data, r2...)
+									data = append(data, base[second.Off+second.Len:]...)
+									return mkCase(dec, f, data, []string{fmt.Sprintf("FIELD@%d=%q", fa.Off, ra), fmt.Sprintf("FIELD@%d=%q", fb.Off, rb)}, d)
+								})
+							}
+						}
 					}
 				}
 			}
